@@ -648,6 +648,10 @@ func checkC11(c c11Case, ctx *vCtx) *vFailure {
 			case 3:
 				inv = vInvocation{Args: append([]string{"--config", cfgOnly, "-d", p, "-l", lg}, cmd...)}
 			}
+			if i%3 == 0 {
+				// a switch given with the value false is a switch not given
+				inv.Args = append([]string{[]string{"--no-database=false", "--no-database=0", "--no-color=false"}[i/3%3]}, inv.Args...)
+			}
 			for rep := 0; rep < 3; rep++ {
 				r := vRunApp(inv)
 				ctx.Run(1)
@@ -818,6 +822,11 @@ func c11EnumSpace(maxN int) []c11EnumSpec {
 		for L := 1; L <= n+2; L++ {
 			out = append(out, c11EnumSpec{n, 2, L, 0})
 		}
+		for L := vMax(1, n-1); L <= n+1; L++ {
+			for _, w := range []int{2, 31, 32, 33, 64, 65, 130} {
+				out = append(out, c11EnumSpec{n, 3, L, w})
+			}
+		}
 		for K := 1; K <= 4; K++ {
 			for D := 0; D <= 3; D++ {
 				out = append(out, c11EnumSpec{n, 1, K, D})
@@ -852,6 +861,16 @@ func TestVerifC11Enum(t *testing.T) {
 			} else if s.Kind == 2 {
 				c.Shape = "chain-to-empty-recipe"
 				c.Book = vDoc{Recs: c11ChainToEmpty("r", s.A)}
+			} else if s.Kind == 3 {
+				// the last recipe of the chain lists many plain elements instead of one (its reference still counts once)
+				c.Shape = "chain-to-wide-recipe"
+				recs := c11Chain("r", s.A)
+				last := &recs[len(recs)-1]
+				last.Lines = nil
+				for k := 0; k < s.B; k++ {
+					last.Lines = append(last.Lines, c11Entry(fmt.Sprintf("el~%02d", k), "1"))
+				}
+				c.Book = vDoc{Recs: recs}
 			} else {
 				c.Shape = "cycle"
 				c.Book = vDoc{Recs: c11Cycle(s.A, s.B)}
@@ -861,3 +880,10 @@ func TestVerifC11Enum(t *testing.T) {
 }
 
 var _ = sort.Strings
+
+func vMax(a, b int) int {
+	if a > b {
+		return a
+	}
+	return b
+}
